@@ -175,7 +175,10 @@ Outcomes(r, t, q) ==
     LET e == Eff(r, t, q.spelling) IN
     CASE e.disp = "redirect" -> {[e |-> e, by |-> r, outs |-> {"mux301"}]}
       [] e.disp = "none"     -> {[e |-> e, by |-> r, outs |-> {"mux404"}]}
-      [] OTHER -> {[e |-> e, by |-> r2, outs |-> Run(r2, e, q, 1)] : r2 \in RoutesAt(e.pat)}
+      [] OTHER -> \* served by r itself, or -- "<path>/" falling through to a subtree
+                  \* pattern -- by whatever is registered for that pattern
+                  {[e |-> e, by |-> r2, outs |-> Run(r2, e, q, 1)] :
+                      r2 \in (IF e.pat = r.pat THEN {r} ELSE RoutesAt(e.pat))}
 
 \* --------------------------------------------------------- requirement
 \* Evaluated on one served request; the invariants below apply them to last.
@@ -258,7 +261,7 @@ Tick == /\ last = None /\ clock < MaxClock /\ DOMAIN sessions # {}
 \* users and firstRun never change ("no side effect").
 Serve(r, t, q) ==
     /\ \E o \in Outcomes(r, t, q) :
-         last' = [route |-> r.pat, site |-> r.site, target |-> t, req |-> q,
+         last' = [route |-> r.pat, site |-> r.site, reg |-> r.reg, target |-> t, req |-> q,
                   cookieClass |-> CookieClass(q.cookie), o |-> o]
     /\ sessions' = IF CookieClass(q.cookie) = "expired"
                    THEN [x \in DOMAIN sessions \ {q.cookie} |-> sessions[x]] ELSE sessions
@@ -286,7 +289,8 @@ Table(r, t, m, sp) ==
 Emit(r, t, m, sp) ==
     LET tab == Table(r, t, m, sp) IN
     PrintT(<<"@@V", ToJson([firstRun |-> firstRun, hasUser |-> users # {},
-                            pat |-> r.pat, site |-> r.site, decl |-> r.method, chain |-> r.chain,
+                            pat |-> r.pat, site |-> r.site, reg |-> r.reg, decl |-> r.method,
+                            chain |-> r.chain,
                             sub |-> t.sub, method |-> m, spelling |-> sp,
                             rows |-> UNION {tab[x] : x \in DOMAIN tab}])>>)
 
